@@ -610,7 +610,7 @@ class Codec:
                         ("constraint", "constraint-count"))
 
     def reuse_base(self, mb: ModelBuilder, op: str = "IMPLIES", rename: Optional[Callable[[str], str]] = None,
-                   abstract: bool = True) -> tuple[AObj, Callable[[AObj], None]]:
+                   abstract: bool = True, list_attr: bool = False) -> tuple[AObj, Callable[[AObj], None]]:
         """A small model of every format's fragment and an in-place edit of it through the model's own lists."""
         rn = rename or (lambda x: x)
         root = mb.feature(rn("Root"))
@@ -619,6 +619,9 @@ class Codec:
         mb.relation(root, [b], 1, 1)
         mb.relation(root, [c], 0, 1)
         mb.relation(a, [mb.feature(rn("Ga")), mb.feature(rn("Gb"))], 1, 1)
+        if list_attr:                                      # two attributes whose values are equal lists (one text, two objects)
+            b._f["attributes"].append(mb.attribute("levels", [1, 2, 3], b))
+            c._f["attributes"].append(mb.attribute("steps", [1, 2, 3], c))
         m = mb.model(root, [mb.constraint("c0", mb.node(mb.op(op), mb.node(rn("Aa")), mb.node(rn("Cc")))),
                             mb.constraint("c00", mb.node(mb.op(op), mb.node(rn("Cc")), mb.node(rn("Bb"))))])
 
@@ -642,6 +645,10 @@ class Codec:
                         for grp in ch._f["relations"]:
                             if len(grp._f["children"]) == 2:
                                 mb._pin(grp, "card_max", 2)        # the alternative group becomes an or-group
+                    if list_attr and ch._f.get("name") == rn("Bb"):
+                        for at_ in ch._f.get("attributes", []):
+                            if isinstance(at_._f.get("default_value"), list):
+                                at_._f["default_value"].append(4)   # a value edited in place by the caller
                     if ch._f.get("name") == rn("Bb"):
                         for rel2 in [x for x in r_._f["relations"] if ch in x._f["children"]]:
                             mb._pin(rel2, "card_min", 0)           # the mandatory child becomes optional
@@ -651,7 +658,7 @@ class Codec:
         writer_reuse_check(self, mb, rule, **kw)
         writer_failed_then_reused(self, mb, rule, **kw)
 
-    def reader_reuse(self, mb: ModelBuilder, rule: str = "REUSE", **kw: Any) -> None:
+    def reader_reuse(self, mb: ModelBuilder, rule: str = "REUSE", _bare: bool = False, **kw: Any) -> None:
         """Histories of reading: (1) a document is read, the caller edits the model it got, and the same document is
         read again by a new reader object: the second model is the document's, not the caller's edited one (a parse
         cache that hands out its own entry); (2) the file is replaced by another document and read again - by a new
@@ -664,6 +671,9 @@ class Codec:
         m_a, edit = self.reuse_base(mb, **kw)
         m_b, edit_b = self.reuse_base(mb, **kw)
         edit_b(m_b)
+        sfx = ":no-constraints" if _bare else ""
+        if _bare:                                          # documents without any constraint (an empty / absent section)
+            m_a._f["ctcs"], m_b._f["ctcs"] = [], []
         wa, wb = run_writer(pm, self.W, m_a, setup=self.wsetup), run_writer(pm, self.W, m_b, setup=self.wsetup)
         if wa["raise"] or wb["raise"] or wa["written"] is None or wb["written"] is None:
             return
@@ -686,7 +696,7 @@ class Codec:
             r2 = it.eval_call_class(ci, [PATH])
             got2 = it.call(tr, [r2])
             d1 = diff(describe(m_a), describe(got2), **self.diff_opts)
-            ctx.check(not d1 and got2 is not got1, P, "read-edit-read", self.rwhere,
+            ctx.check(not d1 and got2 is not got1, P, "read-edit-read" + sfx, self.rwhere,
                       "a document read again after the caller edited the first result denotes the same model as before",
                       bad=f"{self.R}: reading an unchanged file again after the caller edited the model of the first reading "
                           f"gives {'the very object handed out before' if got2 is got1 else 'another model'}: "
@@ -695,25 +705,66 @@ class Codec:
             r3 = it.eval_call_class(ci, [PATH])
             got3 = it.call(tr, [r3])
             d2 = diff(describe(m_b), describe(got3), **self.diff_opts)
-            ctx.check(not d2, P, "replaced-file:new-reader", self.rwhere,
+            ctx.check(not d2, P, "replaced-file:new-reader" + sfx, self.rwhere,
                       "a file replaced by another document is read as that document",
                       bad=f"{self.R}: after the file was replaced the model read is not the new document's: "
                           f"{d2[0][1] if d2 else ''}")
         except (AbsRaise, AbsMutation) as exc:
-            ctx.violation(P, "read-edit-read", self.rwhere, f"{self.R}: reading a document a second time raises {exc.what}")
+            ctx.violation(P, "read-edit-read" + sfx, self.rwhere, f"{self.R}: reading a document a second time raises {exc.what}")
             reset_global_state()
             return
+        # the first reader object asked again while the file is what it was (a reader that parses only once hands out what
+        # the caller has edited in the meantime), then after a reading that failed half-way
+        try:
+            vfs.put(PATH, wa["written"])
+            r5 = it.eval_call_class(ci, [PATH])
+            got5 = it.call(tr, [r5])
+            edit(got5)
+            got6 = it.call(tr, [r5])
+            d5 = diff(describe(m_a), describe(got6), **self.diff_opts)
+            ctx.check(not d5 and got6 is not got5, P, "same-reader-object:asked-twice-with-caller-edits-between" + sfx, self.rwhere,
+                      "a reader object asked twice returns, the second time too, the model of the document",
+                      bad=f"{self.R}: the reader object, asked again after the caller edited the model it had returned, answers with "
+                          f"{'that very object' if got6 is got5 else 'a model the document does not denote'}: "
+                          f"{d5[0][1] if d5 else ''}")
+        except (AbsRaise, AbsMutation) as exc:
+            ctx.info(P, "same-reader-object:asked-twice-with-caller-edits-between" + sfx, self.rwhere,
+                     f"{self.R}: a reader object asked to transform() a second time declines: {exc.what}")
+        bad_doc = broken_variant(self.R, wa["written"])
+        if bad_doc is not None:
+            try:
+                vfs.put(PATH, bad_doc)
+                r7 = it.eval_call_class(ci, [PATH])
+                failed = False
+                try:
+                    it.call(tr, [r7])
+                except (AbsRaise, AbsMutation):
+                    failed = True
+                if failed:
+                    vfs.put(PATH, wb["written"])
+                    got8 = it.call(tr, [r7])
+                    d8 = diff(describe(m_b), describe(got8), **self.diff_opts)
+                    ctx.check(not d8, P, "same-reader-object:after-a-failed-reading" + sfx, self.rwhere,
+                              "a reader object asked again after a failed reading builds the model of the document that is there",
+                              bad=f"{self.R}: after a reading that failed half-way the same object, asked to read a good document, "
+                                  f"builds a model that document does not denote: {d8[0][1] if d8 else ''}")
+            except (AbsRaise, AbsMutation) as exc:
+                ctx.info(P, "same-reader-object:after-a-failed-reading" + sfx, self.rwhere,
+                         f"{self.R}: a reader object asked again after a failed reading declines: {exc.what}")
+        vfs.put(PATH, wb["written"])
         try:
             got4 = it.call(tr, [r1])                        # the first reader object, asked again
             d3 = diff(describe(m_b), describe(got4), **self.diff_opts)
-            ctx.check(not d3, P, "replaced-file:same-reader-object", self.rwhere,
+            ctx.check(not d3, P, "replaced-file:same-reader-object" + sfx, self.rwhere,
                       "the first reader object, asked again after the file was replaced, returns the new document's model",
                       bad=f"{self.R}: the reader object used before answers with a model that is not the one of the document "
                           f"now in the file: {d3[0][1] if d3 else ''}")
         except (AbsRaise, AbsMutation) as exc:
-            ctx.info(P, "replaced-file:same-reader-object", self.rwhere,
+            ctx.info(P, "replaced-file:same-reader-object" + sfx, self.rwhere,
                      f"{self.R}: a reader object asked to transform() a second time declines: {exc.what}")
         reset_global_state()
+        if not _bare:
+            self.reader_reuse(mb, rule, _bare=True, **kw)
 
     def large(self, mb: ModelBuilder, ops: Iterable[str], rule: str = "LARGE", **kw: Any) -> None:
         for key, m, what, owns in large_models(mb, ops, **kw):
@@ -888,3 +939,39 @@ def writer_failed_then_reused(self: Any, mb: ModelBuilder, rule: str = "REUSE", 
                   bad=f"{self.W}: after a transform() that failed half-way the same object, called again on the completed "
                       f"model, writes a text that is not the one a fresh writer produces (left-overs of the failed call)")
     reset_global_state()
+
+
+def broken_variant(reader: str, content: Any) -> Any:
+    """The document with something at its end that the reader cannot represent: reading fails after most of the document
+    was processed (an unknown constraint type / rule tag / term, a relational constraint inside an AFM feature block)."""
+    import json as _json
+    text = content.decode("utf8") if isinstance(content, (bytes, bytearray)) else content
+    if reader in ("JSONReader", "GlencoeReader"):
+        try:
+            doc = _json.loads(text)
+        except (ValueError, TypeError):
+            return None
+        if reader == "JSONReader":
+            doc.setdefault("constraints", []).append({"name": "bogus", "expr": "x", "ast": {"type": "NoSuchOperator", "operands": []}})
+        else:
+            cons = doc.setdefault("constraints", {})
+            if isinstance(cons, dict):
+                cons["bogus"] = {"type": "NoSuchTerm", "operands": []}
+        return _json.dumps(doc)
+    if reader == "FeatureIDEReader":
+        if "</constraints>" in text:
+            out = text.replace("</constraints>", "<rule><nosuchtag><var>x</var></nosuchtag></rule></constraints>", 1)
+        else:
+            out = text.replace("</struct>", "</struct><constraints><rule><nosuchtag><var>x</var></nosuchtag></rule></constraints>", 1)
+        return out.encode("utf8") if isinstance(content, (bytes, bytearray)) else out
+    if reader == "AFMReader":
+        import re as _re
+        m = _re.search(r"^([A-Z][A-Za-z0-9]*)\s*:", text, _re.M)
+        if not m or "%Constraints" not in text:
+            return None
+        return text.rstrip("\n") + f"\n{m.group(1)} {{ {m.group(1)}.cost > 3; }}\n"
+    if reader == "UVLReader":
+        return text + "\n\t((broken\n"
+    return None
+
+
